@@ -190,7 +190,7 @@ pub struct Stats {
 }
 
 impl Stats {
-    fn absorb(&mut self, case_hash: u64, obs: Obs, sample: Option<Value>) {
+    pub fn absorb(&mut self, case_hash: u64, obs: Obs, sample: Option<Value>) {
         self.evaluations += 1;
         if obs.nontrivial {
             self.nontrivial.insert(case_hash);
